@@ -457,7 +457,16 @@ def gen_inputs(tier, rng):
         m1 = rand_mask(rng, 4, 4, 8); m2 = rand_mask(rng, 4, 4, 8); m3 = permuted_mask(rng, m1)
         st = [{"op": "decor", "m": mm, "ps": ps, "og": og, "os": os, "f": rand_poly(rng), "via": rng.choice(["from_mask", "dataset"])}
               for mm in (m1, m2, m3, m1)]
+        if rng.random() < 0.3:      # a call that raises (empty schedule: IndexError) must leave nothing behind for the next call
+            bad = {"kind": "iter", "thr": "1/2", "rel": None, "steps": []}
+            st.insert(rng.choice([0, 1]), {"op": "decor", "m": m1, "ps": ps, "og": og, "os": bad, "f": {"absy": False, "absx": False, "terms": [[0, 0, "1"], [2, 0, "1"]]}, "via": "from_mask"})
         yield {"op": "seq", "share": True, "steps": st}
+    # d6: the default configuration OverSamplingIterate() (fractional accuracy 0.9999, schedule [2, 4, 8, 16]) on tiny masks
+    for k in range(40 if big else 6):
+        m = rand_mask(rng, 2, 2, 3); ps, og = rand_geo(rng)
+        os = {"kind": "iter", "thr": fs(F(0.9999)), "rel": None, "steps": [2, 4, 8, 16], "default": True}
+        yield {"op": "hgrid", "m": m, "ps": ps, "og": og, "os": os, "fs": bowl_family(rng, m, ps, og, 2) + [rand_poly(rng, "affine")],
+               "via": rng.choice(["from_mask", "dataset"]), "one_profile": False}
     # (c) tolerance stream
     for _ in range(600 if big else 60):
         m = rand_mask(rng, 5, 5, 10); n = len(unmasked(m)); ps, og = rand_geo(rng, exact=False)
@@ -580,6 +589,8 @@ class Env:
         if os["kind"] == "map":
             return self.ctx.get(["os", "map", self.mkey, os["ss"], bool(os.get("fl")), os.get("ssder")],
                                 lambda: OverSamplingUniform(sub_size=self.ssmap(os["ss"], bool(os.get("fl")), os.get("ssder"))))
+        if os.get("default"):      # every argument left at its default: fractional accuracy 0.9999, schedule [2, 4, 8, 16]
+            return self.ctx.get(["os", "iter-default"], lambda: OverSamplingIterate())
         return self.ctx.get(["os", "iter", os["thr"], os["rel"], os["steps"]],
                             lambda: OverSamplingIterate(fractional_accuracy=fl(os["thr"]), relative_accuracy=fl(os["rel"]), sub_steps=list(os["steps"])))
     def grid(self, os, via):
@@ -587,7 +598,7 @@ class Env:
         from autoarray.dataset.grids import GridsDataset
         from autoarray.dataset.over_sampling import OverSamplingDataset
         aa = self.aa
-        oskey = [os.get(k) for k in ("kind", "s", "ss", "fl", "ssder", "thr", "rel", "steps")]
+        oskey = [os.get(k) for k in ("kind", "s", "ss", "fl", "ssder", "thr", "rel", "steps", "default")]
         def ctor():
             mask = self.mask(); osobj = self.os_obj(os)
             if via.startswith("dataset"):
@@ -705,7 +716,8 @@ def run_one(inp, ctx):
             res = call_res(lambda: smp.array_via_func_from(func, None))
         else:
             grid = env.grid(os, inp["via"])
-            res = call_res(lambda: Profile(fn).image_2d_from(grid))
+            prof = ctx.get(["profile", f], lambda: Profile(fn))        # shared sequences: ONE profile object, several grids
+            res = call_res(lambda: prof.image_2d_from(grid))
         if res[0] == "ok": ctx.returned("decorated / iterated array", res[1], qlist)
         out = res if res[0] == "raise" else ("ok", qlist(res[1]))
         if op == "iter":
